@@ -1,6 +1,7 @@
 package regular
 
 //vsym:pkg github.com/theparanoids/ysshra/gensign/regular
+//vsym:include regular/ctor.go || regular/ctor_bb.go
 //vsym:entry H02_generate
 //vsym:entry H02_newhandler
 //vsym:model (*github.com/theparanoids/ysshra/config.GensignConfig).ExtractHandlerConf m02ExtractHandlerConf
@@ -9,9 +10,9 @@ package regular
 //vsym:model golang.org/x/crypto/ssh.MarshalAuthorizedKey m02MarshalAuthorizedKey
 //vsym:model encoding/json.Marshal m02JSONMarshal
 //vsym:replay same-harness
-//vsym:expect-cover C02.newhandler-wired C02.request-built C02.no-identifier C02.keygen-failed
+//vsym:expect-cover C02.newhandler-wired C02.request-built C02.no-identifier C02.keygen-failed C02.two-handlers
 //vsym:bound H02_generate: every ReqParam string (log name, transaction id, client IP, client-declared user and host) symbolic with one common length 0..2 bytes (any byte value); requested CA key algorithm any int; configured validity any 64-bit value; key-identifier map of 0..2 entries with symbolic algorithm keys; Generate called twice
-//vsym:bound H02_newhandler: NewHandler with the configuration decoder modelled as filling the handler configuration with an arbitrary validity and one key identifier, then one Generate
+//vsym:bound H02_newhandler: NewHandler with the configuration decoder modelled as filling the handler configuration with an arbitrary validity and one key identifier, then one Generate; then a second NewHandler with another validity and another key-slot table, and the first handler used again
 //vsym:assume key generation yields a fresh key pair object per call (model of key.GenerateKeyPair); encoding/json.Marshal records the value it is given (JSON escaping is the standard library's); the agent is a model behind the agent interface; mapstructure's traversal is modelled (ExtractHandlerConf fills the target with arbitrary values); NewHandler's own wiring is executed
 
 import (
@@ -142,7 +143,7 @@ func H02_generate() {
 	}
 	m02KeygenFails = vChoose(2, "keygen-fails") == 1
 	agent := &m02Agent{}
-	h := &Handler{certValiditySec: validity, agent: agent, conf: &conf{CertValiditySec: validity, KeyIdentifiers: ids}}
+	h := rgNewHandler(validity, agent, ids, "")
 
 	wantSlot, haveSlot := "", false
 	for i, k := range idKeys {
@@ -239,20 +240,37 @@ func H02_generate() {
 var m02CfgValidity uint64
 var m02CfgAgent *m02Agent
 var m02ExtractCalls int
+var m02CfgAlgo = x509.RSA
+var m02CfgSlot = "slot-rsa"
+
+var m02NewHandlerScenario bool
 
 func m02ExtractHandlerConf(g *config.GensignConfig, name string, target interface{}) error {
+	if !m02NewHandlerScenario {
+		return rgExtractHandlerConf(g, name, target)
+	}
 	m02ExtractCalls++
 	c, ok := target.(*conf)
 	if !ok || name != HandlerName {
 		return errors.New("model: unexpected handler configuration target")
 	}
-	c.CertValiditySec = m02CfgValidity
-	c.KeyIdentifiers = map[x509.PublicKeyAlgorithm]string{x509.RSA: "slot-rsa"}
+	// as a weakly typed configuration decoder does: numbers are converted to
+	// the field's type, a map is filled in place when the target has one
+	if !vSetField(c, "CertValiditySec", m02CfgValidity) {
+		return errors.New("model: no CertValiditySec field")
+	}
+	if c.KeyIdentifiers == nil {
+		c.KeyIdentifiers = map[x509.PublicKeyAlgorithm]string{}
+	}
+	c.KeyIdentifiers[m02CfgAlgo] = m02CfgSlot
 	c.PubKeyDir = "/keys"
 	return nil
 }
 
 func m02NewClient(rw interface{ Read([]byte) (int, error); Write([]byte) (int, error) }) ag.ExtendedAgent {
+	if !m02NewHandlerScenario {
+		return rgNewClient(rw)
+	}
 	return m02ExtAgent{m02CfgAgent}
 }
 
@@ -264,6 +282,7 @@ func (m02ExtAgent) SignWithFlags(ssh.PublicKey, []byte, ag.SignatureFlags) (*ssh
 func (m02ExtAgent) Extension(string, []byte) ([]byte, error) { return nil, errors.New("no") }
 
 func H02_newhandler() {
+	m02NewHandlerScenario = true
 	m02CfgValidity = vNondetU64("configured-validity")
 	vAssume(vAnd(m02CfgValidity >= 1, m02CfgValidity <= 315360000))
 	m02CfgAgent = &m02Agent{}
@@ -277,7 +296,7 @@ func H02_newhandler() {
 	if !ok {
 		return
 	}
-	vAssert(h.certValiditySec == m02CfgValidity && h.conf != nil && h.conf.CertValiditySec == m02CfgValidity, "C02.handler-uses-the-configured-validity")
+	// (that the configured validity is used is observed below, on the request and the agent lifetime)
 	param := &csr.ReqParam{LogName: "user", TransID: "t", ClientIP: "1.2.3.4", ReqUser: "u", ReqHost: "h", Attrs: &message.Attributes{CAPubKeyAlgo: x509.RSA}}
 	keys, gerr := h.Generate(param)
 	vAssert(gerr == nil && len(keys) == 1, "C02.generate-succeeds")
@@ -289,4 +308,27 @@ func H02_newhandler() {
 	vAssert(r.KeyMeta != nil && r.KeyMeta.Identifier == "slot-rsa", "C02.key-slot-of-requested-algorithm")
 	vAssert(len(m02CfgAgent.added) == 1 && uint64(m02CfgAgent.added[0].LifetimeSecs) >= m02CfgValidity, "C02.agent-lifetime-follows-the-configuration")
 	vReach("C02.newhandler-wired")
+
+	// a second handler with another configuration in the same process (e.g.
+	// another connection served with a reloaded configuration): the first
+	// handler keeps its own validity and its own key slots
+	v1 := m02CfgValidity
+	m02CfgValidity = vNondetU64("second-configured-validity")
+	vAssume(vAnd(m02CfgValidity >= 1, m02CfgValidity <= 315360000))
+	m02CfgAlgo, m02CfgSlot = x509.ECDSA, "slot-ec"
+	gh2, err2 := NewHandler(&config.GensignConfig{}, nil)
+	vAssert(err2 == nil && gh2 != nil, "C02.handler-constructed")
+	added0 := len(m02CfgAgent.added)
+	keys, gerr = h.Generate(param)
+	vAssert(gerr == nil && len(keys) == 1, "C02.generate-succeeds")
+	if gerr == nil && len(keys) == 1 {
+		r := keys[0].CSRs()[0]
+		vAssert(r.Validity == v1, "C02.first-handler-keeps-its-configured-validity")
+		vAssert(r.KeyMeta != nil && r.KeyMeta.Identifier == "slot-rsa", "C02.first-handler-keeps-its-key-slots")
+		vAssert(len(m02CfgAgent.added) == added0+1 && uint64(m02CfgAgent.added[added0].LifetimeSecs) >= v1, "C02.first-handler-keeps-its-agent-lifetime")
+	}
+	ecParam := &csr.ReqParam{LogName: "user", TransID: "t", ClientIP: "1.2.3.4", ReqUser: "u", ReqHost: "h", Attrs: &message.Attributes{CAPubKeyAlgo: x509.ECDSA}}
+	_, eerr := h.Generate(ecParam)
+	vAssert(eerr != nil, "C02.first-handler-refuses-an-algorithm-only-the-second-configured")
+	vReach("C02.two-handlers")
 }
